@@ -672,6 +672,10 @@ func distinctConsts(a, b *Term) bool {
 	if a.Op == "ref" && (isInputRef(b) || b.Op == "intconst") || b.Op == "ref" && (isInputRef(a) || a.Op == "intconst") {
 		return true
 	}
+	// input references are >= 0, package-level variables live at negative references
+	if isInputRef(a) && b.Op == "intconst" && int64(b.Val) < 0 || isInputRef(b) && a.Op == "intconst" && int64(a.Val) < 0 {
+		return true
+	}
 	if a.IsConst() && b.IsConst() {
 		return a.Val != b.Val
 	}
